@@ -707,6 +707,8 @@ def _specialise_wrappers(facts):
             F.absorbed = True
             facts.specialised = getattr(facts, "specialised", {})
             facts.specialised[F.def_] = sorted(set(facts.specialised.get(F.def_, []) + done))
+            facts.specialised_separately = getattr(facts, "specialised_separately", set())
+            facts.specialised_separately.add(F.def_)
             notes.append("unrecorded recursive helper `%s` is analysed specialised into its wrappers %s" % (fb.last2(F.def_), ", ".join("`%s`" % fb.last2(d) for d in done)))
     return notes
 
